@@ -27,6 +27,13 @@ class AwBoom(Exception):
     pass
 
 
+class AwFalsyBoom(AwBoom):
+    """An exception whose instances are falsy (an aggregate of problems that has none)."""
+
+    def __len__(self):
+        return 0
+
+
 # record how each run_forever was entered (directly = loop_in_thread; via run_until_complete = a borrower)
 _orig_rf = SimLoop.run_forever
 
@@ -72,7 +79,7 @@ def run(case, max_steps=150000):
                 if c['aw']['kind'] in ('future', 'task'):
                     f = target.create_future()
                     if c['aw']['outcome'] == 'raise':
-                        f.set_exception(AwBoom(i))
+                        f.set_exception((AwFalsyBoom if c['aw'].get('falsy') else AwBoom)(i))
                         f.exception()
                     else:
                         f.set_result(('result', i))
@@ -90,8 +97,12 @@ def run(case, max_steps=150000):
                     await aio.sleep(spec['dur'])
                 rec['aw_finished'] = (sim.now, sim.steps)
                 if spec['outcome'] == 'raise':
-                    rec['obj'] = AwBoom(i)
+                    rec['obj'] = (AwFalsyBoom if spec.get('falsy') else AwBoom)(i)
                     raise rec['obj']
+                if spec['outcome'] == 'cancel':
+                    # the awaitable itself ends in a cancellation (it awaited something that was cancelled): that is its outcome
+                    rec['obj'] = 'cancelled'
+                    raise aio.CancelledError('the awaitable was cancelled')
                 rec['obj'] = ('result', i)
                 return rec['obj']
             return work
@@ -113,7 +124,7 @@ def run(case, max_steps=150000):
                         rec['aw_loop_ok'] = True      # a bare future has no body to observe
                         rec['aw_finished'] = (sim.now, sim.steps)
                         if spec['outcome'] == 'raise':
-                            rec['obj'] = AwBoom(i)
+                            rec['obj'] = (AwFalsyBoom if spec.get('falsy') else AwBoom)(i)
                             f.set_exception(rec['obj'])
                         else:
                             rec['obj'] = ('result', i)
@@ -158,7 +169,7 @@ def run(case, max_steps=150000):
                             rec['aw_loop_ok'] = True
                             rec['aw_finished'] = (sim.now, sim.steps)
                             if spec['outcome'] == 'raise':
-                                rec['obj'] = AwBoom(i)
+                                rec['obj'] = (AwFalsyBoom if spec.get('falsy') else AwBoom)(i)
                                 aw.set_exception(rec['obj'])
                             else:
                                 rec['obj'] = ('result', i)
@@ -176,7 +187,8 @@ def run(case, max_steps=150000):
                 except aio.CancelledError as e:
                     if not sim.aborted:
                         rec['outcome'] = ('cancelled', e)
-                    raise
+                    if sim.aborted or spec['outcome'] != 'cancel':
+                        raise
                 except BaseException as e:  # noqa
                     if sim.aborted:       # unwinding of an aborted run is not an observation
                         raise
